@@ -30,10 +30,15 @@ CHECKS = {
     note=BASE + "certificates come from an untrusted solver in the harness and are verified by the proven Lean checkers; claims with N>3 outside tablebase classes are not audited; synthetic networks; full strength only.",
     technique="Lean 4 proof (claim calculus, certificate checkers) + audit of the real engine's mate announcements by Lean-verified win / refutation certificates",
     design="6/C04, Appendix A"),
+ "C07": dict(
+    text="proof (partial): Lean theorems (Props/C07.lean): the accumulator used at every evaluation equals the from-scratch accumulator for every history of evaluator calls / moves, take-backs, null moves, copies and arbitrary weights (proved on integers and transferred to wrapping int16 lanes); feature-index colour-flip and mirror symmetry lifted to the network value for arbitrary output layers; SIMD lane arithmetic (no saturation, clip/pack orders, no 32-bit overflow); eval-cache transparency for the repaired key with a witness that the pinned commit's key (without contempt) is not transparent. endGameEval.cpp, the material correction and the output-layer loops have no theorem (symmetry pairs and cross-build differential only).",
+    note=BASE + "layers after the accumulator are an uninterpreted function except for the lane lemmas; no 64-bit key collisions; the evaluator hook does not see cache-answered evaluations and runs single-threaded.",
+    technique="Lean 4 proof (refinement of the incremental first-layer state machine for all histories; index symmetry; lane arithmetic; cache transparency) + differential of the model against the real Position/NNEvaluator after every operation + fresh-evaluator, symmetry-pair, SIMD cross-build and hooked-search predicates",
+    design="6/C07, notes/C07.md"),
  "C08": dict(
-    text="Lean theorems (Props/C08.lean): bucket index aligned and in range for every size >= 512 and every 64-bit key; field layout disjoint and lossless; xor validation makes any validating pair of words bit-identical to one unit record (relaxed-atomic over-approximation); ply shift exact; hash buckets disjoint from the resident-tablebase bytes; insert writes only inside its bucket. The universally quantified part is proved; the tie to the C++ is a differential run.",
+    text="Lean theorems (Props/C08.lean + Bridge/TT.lean): the index/field/score kernels are regenerated from the C++ source by the cxx2lean translator on every run and proved equal to the hand model (17 Bridge theorems); bucket index aligned and in range for every size >= 512 and every 64-bit key; field layout disjoint and lossless; xor validation makes any validating pair of words bit-identical to one unit record (relaxed-atomic over-approximation); ply shift exact; hash buckets disjoint from the resident-tablebase bytes; insert writes only inside its bucket. The universally quantified part is proved; the tie to the C++ is a differential run.",
     note=BASE + "no 64-bit key/xor coincidences (explicit hypothesis); relaxed atomics modelled as 'a load returns some previously written value of that word'; harness reads private members.",
-    technique="Lean 4 proof over an executable table model + differential correspondence (index grid, entry kernels, op histories) + multi-thread hammer as support",
+    technique="Lean 4 proof over an executable table model + translator-regenerated kernels with Bridge theorems + differential correspondence (index grid, entry kernels, op histories) + multi-thread hammer as support",
     design="6/C08"),
 }
 NOT_YET = {}
